@@ -313,6 +313,28 @@ def rw_named_ops(text: str) -> str:
   return t
 
 
+def rw_format(text: str) -> str:
+  """R8: `&format!(...)` / `format!(...)` -> `verif_fmt()` (message text is not verified)"""
+  out, i = [], 0
+  while True:
+    m = re.search(r'&?\s*format!\s*\(', text[i:])
+    if not m: out.append(text[i:]); break
+    out.append(text[i:i + m.start()])
+    j = i + m.end()
+    depth = 1
+    toks = [t for t in rsitems.lex(text[j:])]
+    end = None
+    for t in toks:
+      if t.kind == 'p' and t.text in '([{': depth += 1
+      elif t.kind == 'p' and t.text in ')]}':
+        depth -= 1
+        if depth == 0: end = j + t.end; break
+    if end is None: raise Undecided('R8: unbalanced format!')
+    out.append('verif_fmt()')
+    i = end
+  return ''.join(out)
+
+
 def rw_project_struct(text: str, keep: List[str]) -> str:
   """R10: keep only the named fields of a braced struct"""
   o = text.index('{')
@@ -567,6 +589,7 @@ def build_unit(name: str, variant: Optional[str] = None, canary: bool = False) -
         elif rule == 'R2': new = rw_slice_match(new)
         elif rule == 'R10': new = rw_project_struct(new, args['keep'])
         elif rule == 'R14': new = rw_named_ops(new)
+        elif rule == 'R8': new = rw_format(new)
         elif rule == 'R13z': new = rw_for_zip(new, args.get('nth', 0))
         elif rule == 'R13': new = rw_for_slice(new, args.get('nth', 0), args.get('mutable', False))
         elif rule == 'R7f': new = rw_pub_fields(new)
